@@ -44,6 +44,8 @@ def check(ctx):
     _r5(ctx, m)
     _r6(ctx)
     _r7(ctx)
+    from .c18 import render_reads_only
+    render_reads_only(ctx, package(ctx.tree), "R8")
 
 
 # ------------------------------------------------------------------ R6  command line: every term is accumulated
@@ -498,6 +500,7 @@ def _r5(ctx, m):
 
 T = FILE
 MUTANTS = [
+    {"name": "render-reindexes-half-indexed", "file": RENDER, "old": '        dupes, dupidx, first = net.find_duplicate_reaction(mode="short")', "new": '        if any(r.idxfromfile == -1 for r in net.reaction_list):\n            net.reindex()\n        dupes, dupidx, first = net.find_duplicate_reaction(mode="short")', "rules": ["R8"]},
     {"name": "init-ode-modifier-update", "file": INIT, "old": '                if ode_modifier.get(key):\n                    ode_modifier[key]["factors"].append(fact)\n                    ode_modifier[key]["reactants"].append(rdep)\n                else:\n                    ode_modifier[key] = {\n                        "factors": [fact],\n                        "reactants": [rdep],\n                    }\n',
      "new": '                ode_modifier.update({key: {"factors": [fact], "reactants": [rdep]}})\n', "rules": ["R6"]},
     {"name": "init-ode-modifier-overwrite", "file": INIT, "old": '                if ode_modifier.get(key):\n                    ode_modifier[key]["factors"].append(fact)\n                    ode_modifier[key]["reactants"].append(rdep)\n                else:\n',
